@@ -20,7 +20,17 @@ let cmd_c09_touch (x : sx) : sx =
   | L [inc; idx] -> sx_of_list sx_of_z (c09_faces_touching (table_of_sx inc) (list_of_sx z_of_sx idx))
   | _ -> failwith "c09_touch"
 
+(* (table edge_table face_edge idx) -> (carried_edge_table edge_indices) *)
+let cmd_c09_edges (x : sx) : sx =
+  match x with
+  | L [t; e; fe; idx] ->
+      let (tab, ei) = c09_slice_edge_table_of (table_of_sx t) (list_of_sx (pair_of_sx z_of_sx z_of_sx) e) (table_of_sx fe)
+                        (list_of_sx z_of_sx idx) in
+      L [sx_of_list (sx_of_pair sx_of_z sx_of_z) tab; sx_of_list sx_of_z ei]
+  | _ -> failwith "c09_edges"
+
 let commands : (string * (sx -> sx)) list = [
+  "c09_edges", cmd_c09_edges;
   "c09_slice", cmd_c09_slice;
   "c09_lat", cmd_c09_lat;
   "c09_touch", cmd_c09_touch;
